@@ -54,6 +54,7 @@ func cutEdges(pred func(v ssa.Value, truth bool) bool) func(*ssa.BasicBlock, int
 
 func runC10(p *core.Program, r *core.Report) {
 	c := rc{p, r}
+	workOnEveryPath(c, "btree.(*BTree).Traverse", "traversal started on every path", "", "", []string{"traverse"}, "Traverse returns on a path that never walks the tree: for some states nothing is visited")
 	const T = "btree.(*BTree)."
 	const N = "btree.(*node)."
 	fGet, fPut, fRemove, fTrav, fSize, fEmpty, fHeight := c.fn(T+"Get"), c.fn(T+"Put"), c.fn(T+"Remove"), c.fn(T+"Traverse"), c.fn(T+"Size"), c.fn(T+"IsEmpty"), c.fn(T+"Height")
